@@ -132,7 +132,7 @@ key()
         if (R[r].state == ChannelState_Mapped)
             m = std::min(m, R[r].cycle);
     auto put = [&](long v) { k.append((const char*)&v, sizeof v); };
-    put(ch.head); put(ch.high); put(ch.cycle - m); put(g.poff >= 0 ? (long)ch.mapped : -1); put(ch.is_accepting_writes); put(ch.holds.n);
+    put(ch.head); put(ch.high); put(ch.cycle - m); put(g.poff >= 0 ? (long)ch.mapped : -1 - (long)(ch.mapped != ch.head)) /* (a stale `mapped` left by a refused unmap is state too) */; put(ch.is_accepting_writes); put(ch.holds.n);
     for (unsigned i = 0; i < ch.holds.n && i < 8; i++) { put(ch.holds.pos[i]); put(ch.holds.cycles[i] - m); }
     for (int r = 0; r < NR; r++) {
         put(R[r].id); put(R[r].state); put(R[r].status);
